@@ -434,3 +434,95 @@ def touches(write_path, prefix):
         w = w[:-1]
         return w == prefix[:len(w)] or w[:len(prefix)] == prefix
     return w[:len(prefix)] == prefix
+
+
+class MustWrites:
+    """paths that are definitely written (at least once) on every path from a start node to the function's exit;
+    calls contribute the must-writes of their callee (from its entry), re-rooted at the call site."""
+
+    def __init__(self, E):
+        self.E = E
+        self.F = E.F
+        self._fn = {}
+
+    def of_function(self, fn, depth=0):
+        r = self._fn.get(fn.id)
+        if r is not None:
+            return r
+        self._fn[fn.id] = set()
+        from . import cfg as cfgmod
+        c = cfgmod.cfg_of(fn)
+        r = self.after(fn, c, c.entry, depth)
+        if fn.kind == 'ctor':
+            r = set(r) | {('this', i.get('name')) for i in fn.inits if i['t'] in ('member', 'indirect')}
+        self._fn[fn.id] = r
+        return r
+
+    def gen(self, fn, n, depth):
+        E = self.E
+        out = set()
+        if n.kind == 'write' and ir.is_expr(n.e):
+            tgt = n.e['l'] if n.e['k'] == 'asg' else n.e.get('e')
+            ps = E.lv(tgt, fn)
+            if len(ps) == 1:
+                out |= ps
+        elif n.kind in ('call', 'ctor', 'dtor') and depth < 10:
+            e = n.e if n.kind != 'dtor' else None
+            if n.kind == 'dtor':
+                d = n.extra or {}
+                g = self.F.fn(d['fn']) if d.get('fn') is not None else None
+                if g is not None:
+                    e = {'k': 'call', 'obj': {'k': 'var', 'n': n.e['n'], 'id': n.e['id'], 'vk': 'local', 'ty': n.e.get('ty', '')}, 'args': []}
+                    for p in self.of_function(g, depth + 1):
+                        out |= E.reroot(p, e, fn)
+                return out
+            g = self.F.fn(e['fn']) if e.get('fn') is not None else None
+            if g is not None:
+                for p in self.of_function(g, depth + 1):
+                    rr = E.reroot(p, e, fn)
+                    if len(rr) == 1:
+                        out |= rr
+            elif (e.get('op') == '=' or e.get('m') == 'operator=') and ir.is_expr(e.get('obj')):
+                ps = E.lv(e['obj'], fn)
+                if len(ps) == 1:
+                    out |= {p + ('*',) for p in ps}
+        return out
+
+    def after(self, fn, c, start, depth=0):
+        """must-write set on every path start -> exit (start's own effect included)"""
+        reach = set()
+        st = [start]
+        while st:
+            x = st.pop()
+            if x.id in reach:
+                continue
+            reach.add(x.id)
+            for s, _ in x.succ:
+                st.append(s)
+        nodes = [n for n in c.nodes if n.id in reach]
+        gens = {n.id: self.gen(fn, n, depth) for n in nodes}
+        # backward: MW(n) = gen(n) | intersection over successors MW(s); exit: {}
+        TOP = None
+        mw = {n.id: TOP for n in nodes}
+        mw[c.exit.id] = set()
+        changed = True
+        it = 0
+        while changed and it < 100:
+            changed = False
+            it += 1
+            for n in reversed(nodes):
+                if n is c.exit:
+                    continue
+                succs = [s for s, lab in n.succ if s.id in reach]
+                vals = [mw[s.id] for s in succs if mw[s.id] is not TOP]
+                if not vals:
+                    continue
+                inter = set(vals[0])
+                for v in vals[1:]:
+                    inter &= v
+                new = gens[n.id] | inter
+                if mw[n.id] is TOP or new != mw[n.id]:
+                    if mw[n.id] is TOP or new < mw[n.id] or new != mw[n.id]:
+                        mw[n.id] = new
+                        changed = True
+        return mw.get(start.id) or set()
